@@ -105,6 +105,23 @@ func c08Frags(r *plan.Rng) []c08Frag {
 			"mx.cfg.l[0] = ins",
 			"my := import(\"mymod\")",
 			"r5m := mx.tbl[0] + my.tbl[0] + mx.cfg.n + my.cfg.n + len(mx.cfg.l[0])"}},
+		{name: "litModuleMutated", mods: []string{"litmod"}, lines: []string{
+			"lm := import(\"litmod\")",
+			"lm.hits[0] += inp",
+			"lm.names.a = ins",
+			"lm2 := import(\"litmod\")",
+			"r17 := lm.hits[0] + lm2.hits[0] + len(lm.names) + len(lm2.names) + lm.k"}},
+		{name: "selfCapturingClosure", lines: []string{
+			"mkw := func() {",
+			"	walk := func(k) {",
+			"		return k == 0 ? 0 : 1 + walk(k - 1)",
+			"	}",
+			"	return walk",
+			"}",
+			"wk := mkw()",
+			"r16 := wk(inp % 6)",
+			"wk2 := copy(wk)",
+			"r16b := wk2(3)"}},
 		{name: "srcModule2", mods: []string{"mymod", "othermod"}, lines: []string{
 			"mm1 := import(\"mymod\")",
 			"om := import(\"othermod\")",
@@ -175,7 +192,7 @@ func c08Frags(r *plan.Rng) []c08Frag {
 			"fz2 := freeze([smf, {m: smf}])",
 			"r8f := type_name(smf.tbl) + \"|\" + type_name(fz.tbl) + \"|\" + type_name(smf.mp.l) + \"|\" + type_name(fz2[1].m.mp.l)",
 			"r8g := smf.tbl + [inp]",
-			"r8h := is_array(smf.mp.l) && !is_array(fz.mp.l)"}},
+			"r8i := is_array(smf.mp.l) && !is_array(fz.mp.l)"}},
 		{name: "moduleTableAppend", mods: []string{"simmod"}, lines: []string{
 			"sma := import(\"simmod\")",
 			"r8a := sma.tbl + [inp]",
@@ -277,6 +294,9 @@ var c08ModSrc = map[string]string{
 		"tbl := [1, 2, 3]",
 		"cfg := {n: 0, l: [0]}",
 		"export {base: base, name: name, twice: twice, label: label, fail: fail, tbl: tbl, cfg: cfg}"),
+	// no module-level variables: the export is one literal with mutable insides
+	"litmod": lines(
+		"export {hits: [0], names: {}, k: 1}"),
 	"othermod": lines(
 		"mymod := import(\"mymod\")",
 		"greet := \"grüß\"",
@@ -512,7 +532,7 @@ func c08Program(r *plan.Rng) (string, []string, []string) {
 	}
 	src = append(src, "done := inp + 1")
 	var mods []string
-	for _, m := range []string{"mymod", "othermod", "text", "fmt", "json", "math", "simmod"} {
+	for _, m := range []string{"mymod", "othermod", "litmod", "text", "fmt", "json", "math", "simmod"} {
 		if modSet[m] {
 			mods = append(mods, m)
 		}
